@@ -1,6 +1,7 @@
 import Driver.Util
 import LemoModel.Evm
 import LemoModel.EvmTable
+import LemoModel.ModExp
 namespace Driver.C16
 open LemoModel LemoModel.Evm Driver
 
@@ -156,6 +157,23 @@ def step (s : St) (w : List String) : St × String :=
         | none, _ => (s, "bad-op")
       | _, _, _, _, _, _, _ => (s, "bad-op")
     | _, _, _, _, _, _, _, _ => (s, "bad-op")
+  | ["modexp", b, e, m, dlen, hb, ran] =>
+    -- header of a MODEXP call: the model answers RequiredGas and, when the harness ran it, what Run returns
+    match b.toNat?, e.toNat?, m.toNat?, dlen.toNat?, hb.toNat?, b? ran with
+    | some b, some e, some m, some dlen, some hb, some ran =>
+      let g := ModExp.requiredGas b e m dlen hb
+      let r := if ran then (match ModExp.outcome true b e m dlen with
+                            | some n => toString n
+                            | none => "panic") else "-"
+      (s, s!"gas={g} ret={r}")
+    | _, _, _, _, _, _ => (s, "bad-op")
+  | ["pregas", addr, n] =>
+    match addr.toNat?, n.toNat? with
+    | some 2, some n => (s, s!"gas={ModExp.sha256Gas n}")
+    | some 3, some n => (s, s!"gas={ModExp.ripemdGas n}")
+    | some 4, some n => (s, s!"gas={ModExp.dataCopyGas n} ret={n}")
+    | some 8, some n => (s, s!"gas={ModExp.pairingGas n} err={if n % 192 = 0 then 0 else 1}")
+    | _, _ => (s, "bad-op")
   | ["end"] =>
     match s.m.result, s.m.frames with
     | some (r, g), [] =>
